@@ -147,6 +147,9 @@ impl Prop for IntProp {
                         refmodel::Prop::Reporting => "reporting",
                     };
                     let sig = format!("{kind}:{}", f.rule);
+                    if kind == "feasibility" && super::e2e::known_nonmetric("C07", &rendered, &f.rule, stats) {
+                        return false;
+                    }
                     // findings already recorded as open for C01-C03 are the same defects seen through C07
                     let known = known_open("C07", &sig);
                     if known {
